@@ -364,6 +364,17 @@ impl AuthorisationService {
 
                 let mut valid_edges = Vec::new();
                 for (edge, entity_name) in edges {
+                    //the edges that define a room only change through a room definition (add_room_node)
+                    if matches!(
+                        entity_name.as_str(),
+                        system_entities::ROOM_ENT
+                            | system_entities::AUTHORISATION_ENT
+                            | system_entities::ENTITY_RIGHT_ENT
+                            | system_entities::USER_AUTH_ENT
+                    ) {
+                        invalid.push(edge.src);
+                        continue;
+                    }
                     if room.can(
                         &edge.verifying_key,
                         &entity_name,
